@@ -32,7 +32,8 @@ ENTRIES = {
                 "truncation at every share boundary (also +1 byte and -1 byte), appended shares/bytes (up to the next "
                 "square sizes), swaps, duplicates, replaced shares, rotation, shares of another block, all-zero shares, "
                 "single-byte flips in the namespace / namespace version / info byte / sequence length / data / last "
-                "byte, and headers of other blocks (same width, half, double) must be rejected; foreign app versions "
+                "byte, headers of other blocks (same width, half, double) and headers whose DAH has a column root / row "
+                "root replaced (by another block's, by one of the other axis) or swapped must be rejected; foreign app versions "
                 "leave the verdict open but an accepted square must still be the header's. TLC checks the decoder "
                 "design against this on K=1,2,4 (thorough 8,16) and generates the cases for K=1..16 (thorough "
                 "32,64,128), which h-shrex replays on the real decode_and_verify with real squares (pairwise distinct "
@@ -67,6 +68,10 @@ def run(ck):
     r = ck.tlc_mc("MC_ShrexEds", dev, tag="mc_nodah", expect_violation="CodeMeetsDemand", workers=1)
     if not r.get("expected_violation_reproduced"):
         raise vf.ToolError("model insensitive: dropping the DAH comparison does not violate CodeMeetsDemand")
+    dev = ck.cfg_with("MC_ShrexEds.cfg", {"Ks": "{2}", "Dev": '"rowsonly"'}, name="MC_ShrexEds_rowsonly.cfg")
+    r = ck.tlc_mc("MC_ShrexEds", dev, tag="mc_rowsonly", expect_violation="CodeMeetsDemand", workers=1)
+    if not r.get("expected_violation_reproduced"):
+        raise vf.ToolError("model insensitive: comparing only the row roots does not violate CodeMeetsDemand")
     cases = []
     for i, g in enumerate(gen_groups):
         gen = ck.cfg_with("Gen_ShrexEds.cfg", {"Ks": tset(g)}, name=f"Gen_ShrexEds_{i}.cfg")
